@@ -22,18 +22,24 @@ import (
 // ---------------------------------------------------------------------------
 // C08 — random secrets are full-length CSPRNG output, base32 without padding.
 
-// stream is an endless deterministic byte stream (SHA-256 in counter mode over a
-// seed, or a constant) standing in for the operating system's random source.
-type stream struct {
+// tape is the process-wide stand-in for the operating system's random source. Everything it ever delivered is kept
+// (log); used is how much of that has been accounted to secrets. The content of what it delivers next is set per case:
+// SHA-256 in counter mode over a seed, or a constant byte; reads may be cut short. The tape outlives the cases on
+// purpose: a library that reads ahead (a bufio.Reader around the source) still holds bytes delivered during an earlier
+// case, and they are exactly log[used:].
+type tape struct {
 	mu    sync.Mutex
 	seed  uint64
-	konst int // -1: PRF stream; 0..255: constant stream of that byte
+	konst int // -1: PRF content; 0..255: constant content of that byte
 	chunk int // max bytes handed out per Read (short reads); 0 = unlimited
-	cur   int
-	reads [][2]int // (offset, n) per Read call
+	log   []byte
+	used  int
+	reads [][2]int // (offset, n) per Read call since the last mark
 }
 
-func (s *stream) at(off, n int) []byte {
+var theTape = &tape{konst: -1}
+
+func (s *tape) content(off, n int) []byte {
 	out := make([]byte, n)
 	if s.konst >= 0 {
 		for i := range out {
@@ -52,17 +58,66 @@ func (s *stream) at(off, n int) []byte {
 	return out
 }
 
-func (s *stream) Read(p []byte) (int, error) {
+func (s *tape) Read(p []byte) (int, error) {
 	s.mu.Lock()
 	defer s.mu.Unlock()
 	n := len(p)
 	if s.chunk > 0 && n > s.chunk {
 		n = s.chunk
 	}
-	copy(p, s.at(s.cur, n))
-	s.reads = append(s.reads, [2]int{s.cur, n})
-	s.cur += n
+	b := s.content(len(s.log), n)
+	copy(p, b)
+	s.reads = append(s.reads, [2]int{len(s.log), n})
+	s.log = append(s.log, b...)
 	return n, nil
+}
+
+func (s *tape) set(seed uint64, konst, chunk int) {
+	s.mu.Lock()
+	defer s.mu.Unlock()
+	s.seed, s.konst, s.chunk = seed, konst, chunk
+	s.reads = nil
+	if len(s.log) > 1<<24 && s.used > 1<<23 { // keep the memory bounded: forget what has been accounted for
+		s.log = append([]byte(nil), s.log[s.used:]...)
+		s.used = 0
+	}
+}
+
+// delivered returns how many bytes the source has handed out so far.
+func (s *tape) delivered() int {
+	s.mu.Lock()
+	defer s.mu.Unlock()
+	return len(s.log)
+}
+
+// take accounts the next n delivered bytes to a secret whose key bytes are got. The rule: a secret is the next n bytes
+// of the source that no earlier secret used — bytes may have been fetched in advance, but none is skipped, changed or used
+// twice. On a mismatch the cursor is re-synchronised (behind the place where the bytes do occur, or at the end), so that one
+// violation does not make every later case fail.
+func (s *tape) take(got []byte, n int) (want []byte, okk bool, where string) {
+	s.mu.Lock()
+	defer s.mu.Unlock()
+	if s.used+n <= len(s.log) {
+		want = append([]byte(nil), s.log[s.used:s.used+n]...)
+	} else {
+		want = append([]byte(nil), s.log[s.used:]...)
+	}
+	if len(got) == n && bytes.Equal(got, want) {
+		s.used += n
+		return want, true, ""
+	}
+	where = "they occur nowhere in what the source delivered"
+	if len(got) > 0 {
+		if i := bytes.Index(s.log, got); i >= 0 {
+			where = fmt.Sprintf("they are the bytes at offset %d (%+d from the first unused byte)", i, i-s.used)
+			if i+len(got) > s.used {
+				s.used = i + len(got)
+				return want, false, where
+			}
+		}
+	}
+	s.used = len(s.log)
+	return want, false, where
 }
 
 type c08Case struct {
@@ -86,12 +141,12 @@ func sizeOf(algo int) int {
 
 var randMu sync.Mutex
 
-func withReader(r *stream, f func()) {
+func withReader(r *tape, f func()) {
 	randMu.Lock()
 	defer randMu.Unlock()
 	// crypto/rand.Reader has been a switchable stand-in since before the library was initialised (package early.verif), so
-	// a library that copied the variable at start-up reads the recorded stream too; the variable itself is set as well, for
-	// the case that something replaced it in the meantime
+	// a library that copied the variable at start-up reads the tape too; the variable itself is set as well, for the case
+	// that something replaced it in the meantime
 	restore := early.Use(r)
 	defer restore()
 	old := rand.Reader
@@ -100,16 +155,49 @@ func withReader(r *stream, f func()) {
 	f()
 }
 
+// secretBytes reads a text as upper-case unpadded base32 (the reference decoder, not the library's).
+func secretBytes(text string) ([]byte, bool) {
+	if strings.ContainsAny(text, "=") || text != strings.ToUpper(text) {
+		return nil, false
+	}
+	b, good := ref.B32DecodeLoose(text)
+	if !good || ref.B32(b) != text {
+		return nil, false
+	}
+	return b, true
+}
+
 func checkC08(c c08Case) (v verdict) {
-	st := &stream{seed: c.Seed, konst: c.Konst, chunk: c.Chunk}
+	st := theTape
+	st.set(c.Seed, c.Konst, c.Chunk)
 	sizes := map[int]bool{}
-	unsupportedBetween, otherOps := false, false
+	unsupportedBetween, otherOps, readAhead := false, false, false
 	succ := 0
 	var outs [][2]string
 	v = ok(false)
+	// one generated secret: the text is upper-case unpadded base32 of exactly n bytes, those are the next unused bytes of
+	// the source, and the library's decoder maps the text back to them
+	secret := func(i int, what, text string, n int) bool {
+		b, isB32 := secretBytes(text)
+		if !isB32 || len(b) != n {
+			v = bad(true, nil, "call %d: %s = %q is not upper-case unpadded base32 of %d bytes", i, what, text, n)
+			st.take(nil, 0)
+			return false
+		}
+		want, good, where := st.take(b, n)
+		if !good {
+			v = bad(true, nil, "call %d: %s = %q = %x; the next %d unused bytes of the random source are %x = %q: %s", i, what, text, b, n, want, ref.B32(want), where)
+			return false
+		}
+		if back, derr := otp.DecodeSecret(text); derr != nil || !bytes.Equal(back, b) {
+			v = bad(true, nil, "call %d: DecodeSecret(%s) = %x, %v; want %x", i, what, back, derr, b)
+			return false
+		}
+		return true
+	}
 	withReader(st, func() {
-		model := 0
 		for i, a := range c.Ops {
+			before := st.delivered()
 			if a >= 256 {
 				// another exported operation between the RandomSecret calls (kind = a>>8, algorithm value = a&255): none of them
 				// may change what RandomSecret does afterwards; if one of them hands out a freshly generated secret itself (a URL
@@ -131,8 +219,8 @@ func checkC08(c c08Case) (v verdict) {
 						sec = u.Query().Get("secret")
 					}
 					if sec == "" {
-						if st.cur != model {
-							v = bad(true, []string{"url-empty-secret"}, "call %d: URL generation with an empty secret (algorithm %d) handed out no secret but consumed %d random bytes", i, al, st.cur-model)
+						if d := st.delivered(); d != before {
+							v = bad(true, []string{"url-empty-secret"}, "call %d: URL generation with an empty secret (algorithm %d) handed out no secret but took %d bytes from the random source", i, al, d-before)
 							return
 						}
 						break
@@ -142,12 +230,10 @@ func checkC08(c c08Case) (v verdict) {
 						v = bad(true, []string{"url-empty-secret"}, "call %d: URL generation with an empty secret and the unsupported hash %d produced the secret %q; want an error and no secret", i, al, sec)
 						return
 					}
-					want := st.at(model, n)
-					if back, derr := otp.DecodeSecret(sec); derr != nil || !bytes.Equal(back, want) || st.cur != model+n {
-						v = bad(true, []string{"url-empty-secret"}, "call %d: URL generation filled the empty secret with %q (%d bytes, %d random bytes consumed); a generated secret for hash %d is the next %d bytes of the random source, %x", i, sec, len(back), st.cur-model, al, n, want)
+					if !secret(i, fmt.Sprintf("the secret URL generation filled in for hash %d", al), sec, n) {
+						v.Labels = append(v.Labels, "url-empty-secret")
 						return
 					}
-					model += n
 				default:
 					otp.GenerateHOTPURL(otp.URLParam{Issuer: "Iss", AccountName: "acc", Secret: "JBSWY3DPEHPK3PXP", Algorithm: otp.Algorithm(al)})
 					otp.GenerateHOTP("JBSWY3DPEHPK3PXP", 1, &otp.Param{Digits: 6, Algorithm: otp.Algorithm(al)})
@@ -162,8 +248,8 @@ func checkC08(c c08Case) (v verdict) {
 					v = bad(true, []string{"unsupported"}, "call %d: RandomSecret(%d) = %q, %v; want error and no secret", i, a, got, err)
 					return
 				}
-				if st.cur != model {
-					v = bad(true, []string{"unsupported"}, "call %d: RandomSecret(%d) failed but consumed %d random bytes", i, a, st.cur-model)
+				if d := st.delivered(); d != before {
+					v = bad(true, []string{"unsupported"}, "call %d: RandomSecret(%d) failed but took %d bytes from the random source", i, a, d-before)
 					return
 				}
 				if succ > 0 {
@@ -171,24 +257,13 @@ func checkC08(c c08Case) (v verdict) {
 				}
 				continue
 			}
-			want := st.at(model, n)
 			if err != nil {
 				v = bad(true, nil, "call %d: RandomSecret(%d) failed: %v", i, a, err)
 				return
 			}
-			if got != ref.B32(want) {
-				v = bad(true, nil, "call %d: RandomSecret(%d) = %q; the next %d bytes of the random source are %x = %q (stream offset %d)", i, a, got, n, want, ref.B32(want), model)
+			if !secret(i, fmt.Sprintf("RandomSecret(%d)", a), got, n) {
 				return
 			}
-			if st.cur != model+n {
-				v = bad(true, nil, "call %d: RandomSecret(%d) consumed %d bytes of the random source, want exactly %d", i, a, st.cur-model, n)
-				return
-			}
-			if back, derr := otp.DecodeSecret(got); derr != nil || !bytes.Equal(back, want) {
-				v = bad(true, nil, "call %d: DecodeSecret(RandomSecret) = %x, %v; want %x", i, back, derr, want)
-				return
-			}
-			model += n
 			sizes[n] = true
 			succ++
 			outs = append(outs, [2]string{got, strings.Clone(got)})
@@ -199,6 +274,20 @@ func checkC08(c c08Case) (v verdict) {
 					return
 				}
 			}
+		}
+		if st.delivered() > st.used {
+			readAhead = true
+		}
+		if c.Konst >= 0 && v.Err == nil {
+			// closing call: under constant content a skipped byte looks like any other; switch to distinguishable content and
+			// take one more secret — it must still be the next unused bytes (those fetched in advance included)
+			st.set(c.Seed, -1, c.Chunk)
+			got, err := otp.RandomSecret(otp.SHA1)
+			if err != nil {
+				v = bad(true, nil, "closing call: RandomSecret(SHA1) failed: %v", err)
+				return
+			}
+			secret(len(c.Ops), "RandomSecret(SHA1) after the constant stretch", got, 20)
 		}
 	})
 	if v.Err != nil {
@@ -217,6 +306,11 @@ func checkC08(c c08Case) (v verdict) {
 	}
 	if otherOps {
 		labels = append(labels, "other-operations-between")
+	}
+	if readAhead {
+		labels = append(labels, "library-reads-ahead")
+	} else {
+		labels = append(labels, "exact-consumption")
 	}
 	return ok(nt || otherOps, labels...)
 }
@@ -260,7 +354,8 @@ type c08ConcCase struct {
 }
 
 func checkC08Conc(c c08ConcCase) (v verdict) {
-	st := &stream{seed: c.Seed, konst: -1}
+	st := theTape
+	st.set(c.Seed, -1, 0)
 	var outs []string
 	var mu sync.Mutex
 	var firstErr error
@@ -289,23 +384,72 @@ func checkC08Conc(c c08ConcCase) (v verdict) {
 		wg.Wait()
 	})
 	if firstErr != nil {
+		st.take(nil, 0)
 		return bad(true, nil, "concurrent RandomSecret: %v", firstErr)
 	}
-	var want []string
-	for _, r := range st.reads {
-		want = append(want, ref.B32(st.at(r[0], r[1])))
+	var keys [][]byte
+	total := 0
+	for _, o := range outs {
+		b, isB32 := secretBytes(o)
+		if !isB32 || (len(b) != 20 && len(b) != 32 && len(b) != 64) {
+			st.take(nil, 0)
+			return bad(true, nil, "concurrent RandomSecret returned %q: not upper-case unpadded base32 of 20, 32 or 64 bytes", o)
+		}
+		keys = append(keys, b)
+		total += len(b)
 	}
-	sort.Strings(outs)
-	sort.Strings(want)
-	if len(outs) != len(want) {
-		return bad(true, nil, "%d secrets returned but the random source served %d reads", len(outs), len(want))
+	st.mu.Lock()
+	defer st.mu.Unlock()
+	if len(st.log)-st.used < total {
+		have := len(st.log) - st.used
+		st.used = len(st.log)
+		return bad(true, nil, "concurrent RandomSecret handed out %d secrets with %d key bytes in all, but only %d unused bytes had been taken from the random source", len(outs), total, have)
 	}
-	for i := range outs {
-		if outs[i] != want[i] {
-			return bad(true, nil, "secret %q is not the base32 of any chunk handed out by the random source (nearest %q)", outs[i], want[i])
+	region := st.log[st.used : st.used+total]
+	st.used += total
+	// (1) what was handed out is, byte for byte, what the source delivered next: nothing changed, nothing used twice, nothing
+	// skipped. Concurrent callers of a library that fetches in advance may each get several pieces (a locked bufio.Reader
+	// serves the rest of its buffer to one caller and the start of the next block to another), so the comparison is on the
+	// multiset of bytes
+	var hist [256]int
+	for _, b := range region {
+		hist[b]++
+	}
+	for _, k := range keys {
+		for _, b := range k {
+			hist[b]--
 		}
 	}
-	return ok(len(c.Ops) >= 2, fmt.Sprintf("goroutines=%d", len(c.Ops)))
+	for b, d := range hist {
+		if d != 0 {
+			return bad(true, nil, "concurrent RandomSecret: the %d secrets handed out do not consist of the %d bytes the random source delivered next (byte 0x%02x occurs %+d times too %s in the source's bytes); secrets %q", len(outs), total, b, d, map[bool]string{true: "often", false: "rarely"}[d > 0], outs)
+		}
+	}
+	// (2) when every read of the source had the size of one secret — the library does not fetch in advance — each secret is
+	// exactly one of those reads
+	exact := len(st.reads) == len(outs)
+	for _, r := range st.reads {
+		if r[1] != 20 && r[1] != 32 && r[1] != 64 {
+			exact = false
+		}
+	}
+	lab := "pieces-may-interleave"
+	if exact {
+		lab = "one-read-per-secret"
+		var want []string
+		for _, r := range st.reads {
+			want = append(want, ref.B32(st.log[r[0]:r[0]+r[1]]))
+		}
+		got := append([]string(nil), outs...)
+		sort.Strings(got)
+		sort.Strings(want)
+		for i := range got {
+			if got[i] != want[i] {
+				return bad(true, nil, "secret %q is not the base32 of any chunk handed out by the random source (nearest %q)", got[i], want[i])
+			}
+		}
+	}
+	return ok(len(c.Ops) >= 2, fmt.Sprintf("goroutines=%d", len(c.Ops)), lab)
 }
 
 var c08Conc = newPart("C08", "concurrent",
